@@ -1,5 +1,5 @@
 """C02 - the typed input equals what the client encoded (DESIGN.md section 3, C02)."""
-from .. import common, flow, paths
+from .. import common, flow, inline, paths
 from ..facts import callee_def, short
 from ..model import field_key, load_model
 from ..report import AnchorMissing
@@ -365,6 +365,13 @@ def rule_r3_r4(chk, db, helpers):
             continue
         ps = pair_summary(body)
         optional = "_opt_" in sh
+        if ps is None or ps.get("error"):
+            # the read may sit in a private helper (a classifier answering Absent / Single(v) / Repeated): study the parser with it inlined
+            ib = inline.inlined(db, body)
+            if ib is not body:
+                ps2 = pair_summary(ib)
+                if ps2 is not None and not ps2.get("error"):
+                    body, ps = ib, ps2
         if ps is not None:
             if ps.get("error"):
                 chk.fail("R3", sh, body.loc(ps["first"]), ps["error"])
@@ -429,6 +436,11 @@ def rule_r4_qs_none(chk, db, helpers):
         body = db.body(name)
         optional = sh != "parse_query"
         t0 = _qs_none_test(body)
+        if t0 is None:
+            # the test may sit in a private classifier helper: look at the parser with it inlined
+            ib = inline.inlined(db, body)
+            if ib is not body and _qs_none_test(ib) is not None:
+                body, t0 = ib, _qs_none_test(ib)
         if t0 is not None:
             bi, rets = t0
             chk.verdict(_absent_ok(body, rets, optional), "R4", sh + ".no-query-string", body.loc(bi), "request without a query string: returns %s" % [w["kind"] for w in rets])
@@ -455,6 +467,7 @@ def rule_r5(chk, db):
         raise AnchorMissing("expected one body calling Body::store_all_unlimited, found %s" % list(bodies))
     body = list(bodies.values())[0]
     sbi = [bi for b, bi, t in cs if b is body][0]
+    body = inline.inlined(db, body)      # the comparison may sit in a private helper (`check_buffered_length(bytes.len(), content_length)?`)
     # comparisons between len() of the stored bytes and the content_length parameter
     cmp_edges = set()
     found = []
@@ -489,6 +502,23 @@ def rule_r5(chk, db):
             sl = flow.backward(body, t["args"][0])
             if any(callee_def(t2).endswith("store_all_unlimited") for _, t2, _ in sl.calls):
                 empty_edges |= flow.outcomes_of_call(body, bi).get("true")
+    # `match (bytes.len(), content_length) { (0, _) => Ok(()), .. }`: the arm of the value 0 of the buffered length
+    for bi in body.live_blocks():
+        t = body.blocks[bi]["term"]
+        if t["k"] != "switch" or "p" not in t["discr"]:
+            continue
+        d = t["discr"]
+        op = paths._tuple_field_operand(body, d["p"]) if d["p"]["proj"] else d
+        if op is None or "p" not in op:
+            continue
+        ty = body.locals[op["p"]["l"]] if op["p"]["l"] < len(body.locals) else ""
+        if ty not in ("usize", "u64"):
+            continue
+        sl = flow.backward(body, op, at=bi)
+        if any(callee_def(t2).endswith("::len") for _, t2, _ in sl.calls) and any(callee_def(t2).endswith("store_all_unlimited") for _, t2, _ in sl.calls):
+            for v, tb in t["targets"]:
+                if str(v) == "0":
+                    empty_edges.add((bi, v))
     oks = [w["bi"] for w in flow.return_writes(body) if w["kind"] == "Ok" and
            any(callee_def(t2).endswith("store_all_unlimited") for _, t2, _ in flow.backward(body, w["rv"]["ops"][0]).calls)]
     if not oks:
